@@ -249,11 +249,23 @@ fn out_of_range<L: fmt::Debug, R: fmt::Debug>(left: L, op: &'static str, right: 
     }
 }
 
+/// Text that holds an integer takes part in `+`, `-` and `*` as that integer, not as the nearest
+/// double (every other text is coerced to a double by `binary_op`).
+fn int_text(v: Value) -> Value {
+    match v {
+        Value::Str(ref s) => match Value::from_string(s.as_str()) {
+            i @ Value::Int(_) => i,
+            _ => v,
+        },
+        _ => v,
+    }
+}
+
 impl Add for Value {
     type Output = Result<Value, EvalError>;
 
     fn add(self, rhs: Self) -> Self::Output {
-        match (self, rhs) {
+        match (int_text(self), int_text(rhs)) {
             (Value::DateTime(ldt), Value::Duration(rd)) => ldt
                 .checked_add_signed(rd)
                 .map(Value::DateTime)
@@ -280,7 +292,7 @@ impl Sub for Value {
     type Output = Result<Value, EvalError>;
 
     fn sub(self, rhs: Self) -> Self::Output {
-        match (self, rhs) {
+        match (int_text(self), int_text(rhs)) {
             (Value::DateTime(ldt), Value::Duration(rf)) => ldt
                 .checked_sub_signed(rf)
                 .map(Value::DateTime)
@@ -304,7 +316,7 @@ impl Mul for Value {
     type Output = Result<Value, EvalError>;
 
     fn mul(self, rhs: Self) -> Self::Output {
-        match (self, rhs) {
+        match (int_text(self), int_text(rhs)) {
             (Value::Duration(ld), Value::Int(ri)) => i32::try_from(ri)
                 .ok()
                 .and_then(|factor| ld.checked_mul(factor))
